@@ -1050,6 +1050,84 @@ pub fn check_block_cancel(ctx: &Ctx, variant: u32, counting: bool) -> PResult {
 	same_block("hydrate_from(From<Block>, the transaction)", &hb, &b)
 }
 
+/// part "recreate": a commitment that is created, spent and created AGAIN inside one multiset
+/// (tx1: X -> Y ; tx2: Y -> Z ; tx3: Z, W -> Y): the union holds Y twice as an output and once as an
+/// input. Cut-through matches one pair per occurrence, so the aggregate of all three, in every order
+/// and bracketing whose intermediate results are themselves valid, is the transaction X, W -> Y; a
+/// block over the three and its hydration from the individual transactions agree.
+pub fn check_recreate(ctx: &Ctx, variant: u32, counting: bool) -> PResult {
+	init_thread();
+	let y = universe((variant as usize * 11 + 1) % UNIVERSE);
+	let z = universe((variant as usize * 11 + 20) % UNIVERSE);
+	let fee = 1 + (variant as u64 % 3);
+	let x = OutRef { amount: y.amount + fee, key: 4000 + variant * 4, cb: false };
+	// tx2 needs y.amount = z.amount + fee2: top up with a fresh input or leave change
+	let mut tx2_in = vec![y];
+	let mut tx2_out = vec![z];
+	if y.amount < z.amount + fee {
+		tx2_in.push(OutRef { amount: z.amount + fee - y.amount, key: 4001 + variant * 4, cb: false });
+	} else if y.amount > z.amount + fee {
+		tx2_out.push(OutRef { amount: y.amount - z.amount - fee, key: 4002 + variant * 4, cb: false });
+	}
+	// tx3: Z + W -> Y
+	let w_amt = (y.amount + fee).saturating_sub(z.amount).max(1);
+	let mut tx3_out = vec![y];
+	if z.amount + w_amt > y.amount + fee {
+		tx3_out.push(OutRef { amount: z.amount + w_amt - y.amount - fee, key: 4003 + variant * 4, cb: false });
+	}
+	let w = OutRef { amount: w_amt, key: 4004 + variant * 4 + 100, cb: false };
+	let mk = |inputs: Vec<OutRef>, outputs: Vec<OutRef>, zero: bool| -> Result<Transaction, Fail> {
+		let spec = TxSpec { inputs, outputs, kernels: vec![KernelSpec::plain(fee)], zero_offset: zero };
+		ensure!(spec.balanced(), "harness:recreate", "unbalanced operand {:?}", spec);
+		let tx = assemble(&spec).0;
+		if let Err(e) = tx.validate(Weighting::AsTransaction) {
+			fail!("harness:operand-invalid", "operand is not valid: {:?}", e);
+		}
+		Ok(tx)
+	};
+	let tx1 = mk(vec![x], vec![y], variant % 2 == 0)?;
+	let tx2 = mk(tx2_in, tx2_out, false)?;
+	let tx3 = mk(vec![z, w], tx3_out, variant % 3 == 0)?;
+	if counting {
+		ctx.ev.eval();
+		ctx.ev.class("commitment_recreated_inside_the_multiset");
+		ctx.ev.nontrivial(&("recreate", variant));
+	}
+	// the reference result: tx1 + tx2 first (Y matched once), then + tx3 (Z matched) — each step a
+	// multiset in which every commitment is created and spent at most once
+	let t12 = aggregate(&[tx1.clone(), tx2.clone()]).map_err(|e| Fail::new("recreate:agg-err", format!("aggregate(tx1, tx2): {:?}", e)))?;
+	let refs: Vec<&Transaction> = vec![&tx1, &tx2];
+	check_model("recreate", "aggregate(tx1, tx2)", &t12, &expect_of(&refs)?)?;
+	let want = aggregate(&[t12.clone(), tx3.clone()]).map_err(|e| Fail::new("recreate:agg-err", format!("aggregate(aggregate(tx1, tx2), tx3): {:?}", e)))?;
+	let refs: Vec<&Transaction> = vec![&t12, &tx3];
+	check_model("recreate", "aggregate(aggregate(tx1, tx2), tx3)", &want, &expect_of(&refs)?)?;
+	if let Err(e) = want.validate(Weighting::NoLimit) {
+		fail!("recreate:invalid", "the aggregate of the three does not validate: {:?}", e);
+	}
+	// flat, in every order
+	let all = [tx1.clone(), tx2.clone(), tx3.clone()];
+	for perm in all_perms(3) {
+		let ops: Vec<Transaction> = perm.iter().map(|i| all[*i].clone()).collect();
+		let got = aggregate(&ops).map_err(|e| Fail::new("recreate:flat-agg-err", format!("aggregate of [tx{}, tx{}, tx{}] (tx1: X->Y, tx2: Y->Z, tx3: Z,W->Y — Y is created, spent and created again) failed: {:?}; the same three aggregate pairwise", perm[0] + 1, perm[1] + 1, perm[2] + 1, e)))?;
+		same_tx("recreate:flat-differs", &format!("flat aggregate in order {:?}", perm), &got, &want)?;
+	}
+	// the other bracketing with valid intermediates
+	let t23 = aggregate(&[tx2.clone(), tx3.clone()]).map_err(|e| Fail::new("recreate:agg-err", format!("aggregate(tx2, tx3): {:?}", e)))?;
+	let got = aggregate(&[tx1.clone(), t23]).map_err(|e| Fail::new("recreate:agg-err", format!("aggregate(tx1, aggregate(tx2, tx3)): {:?}", e)))?;
+	same_tx("recreate:bracket-differs", "aggregate(tx1, aggregate(tx2, tx3))", &got, &want)?;
+	// block over the three, and its hydration from the individual transactions
+	let prev = grin_core::genesis::genesis_dev().header;
+	let (_, reward_out, reward_kern) = LIB.coinbase(3 * fee, 0);
+	let mut b = Block::from_reward(&prev, &all, reward_out.clone(), reward_kern.clone(), Difficulty::from_num(1)).map_err(|e| Fail::new("recreate:block-err", format!("from_reward over the three individual transactions: {:?}", e)))?;
+	b.header.timestamp = prev.timestamp + chrono::Duration::seconds(60);
+	let mut b1 = Block::from_reward(&prev, &[want.clone()], reward_out, reward_kern, Difficulty::from_num(1)).map_err(|e| Fail::new("recreate:block-err", format!("from_reward over the aggregate: {:?}", e)))?;
+	b1.header.timestamp = b.header.timestamp;
+	same_block("block over the three transactions vs block over their aggregate", &b, &b1)?;
+	let cb: CompactBlock = b.clone().into();
+	let hb = Block::hydrate_from(cb, &all).map_err(|e| Fail::new("hydrate:err", format!("hydrate_from the three individual transactions: {:?}", e)))?;
+	same_block("hydrate_from(From<Block>, the three transactions)", &hb, &b)
+}
+
 // ---------------------------------------------------------------- run / replay
 
 /// two independent one-kernel transactions, the first with a non-zero offset,
@@ -1121,6 +1199,17 @@ pub fn run(ctx: &Ctx) -> HResult<()> {
 		}
 	}
 
+	for variant in 0..ctx.n(8, 40) as u32 {
+		let r = match catch(|| check_recreate(ctx, variant, true)) {
+			Ok(r) => r,
+			Err(p) => Err(p),
+		};
+		if let Err(f) = r {
+			ctx.report("recreate", &f.sig, json!({"variant": variant}), &f.msg);
+			break;
+		}
+	}
+
 	// directed: the smallest multiset whose remainder has a zero offset while the
 	// known subset has not (de-aggregation failed on it before fa092684c)
 	let minimal = minimal_zero_remainder_case();
@@ -1161,6 +1250,7 @@ pub fn replay(ctx: &Ctx, part: &str, case: &Value) -> PResult {
 			check_multiset(ctx, &c, false)
 		}
 		"block_cancel" => check_block_cancel(ctx, case["variant"].as_u64().unwrap_or(0) as u32, false),
+		"recreate" => check_recreate(ctx, case["variant"].as_u64().unwrap_or(0) as u32, false),
 		"cancel" => check_cancel(ctx, case["k"].as_u64().unwrap_or(2) as usize, case["variant"].as_u64().unwrap_or(0) as u32, false),
 		_ => Ok(()),
 	}
